@@ -8,10 +8,12 @@
 // runs only if the attempt succeeded, and the matching release (so every successful lock is followed by its
 // unlock and a run that ends with a parked fiber is a lost wake-up, never a client bug; one lock per scenario):
 //   L lock            T try_lock            F try_lock_for(15ns)        G try_lock_for(1ms)     U try_lock_until(45ns)
-//   l lock_shared     t try_lock_shared     f try_lock_shared_for(15ns) g try_lock_shared_for(1ms)
+//   Z try_lock_for(0ns)   z try_lock_shared_for(0ns)
+//   l lock_shared     t try_lock_shared     f try_lock_shared_for(15ns) g try_lock_shared_for(1ms) u try_lock_shared_until(45ns)
 //   Y this_thread::yield   S sleep_for(25ns)
 // Condition variable programs (one mutex, one flag, one condvar):
 //   W {lock; while(!flag) cv.wait; unlock}     w {lock; if(!flag) cv.wait_for(15ns) once; unlock}   x same with 1ms
+//   u same with wait_until(200ns)
 //   N {lock; flag=true; unlock; notify_one}    A {...; notify_all}     n notify_one    a notify_all     Y S as above
 // Thread programs: J(<prog>) spawn a thread running <prog> and join it, D(<prog>) spawn and detach, Y, S.
 // Thread-local programs: 0..3 store &cell[d] into pointer a, 4..7 store &cell[d-4] into pointer b,
@@ -40,6 +42,7 @@ constexpr std::int64_t kShort = 15;
 constexpr std::int64_t kLong = 1000000;
 constexpr std::int64_t kAbs = 45;
 constexpr std::int64_t kSleep = 25;
+constexpr std::int64_t kAbsLong = 200;
 
 std::int64_t Now() {
   return Clock::now().time_since_epoch().count();
@@ -140,6 +143,9 @@ struct ILock {
   virtual bool TrySharedFor(std::int64_t) {
     std::abort();
   }
+  virtual bool TrySharedUntil(std::int64_t) {
+    std::abort();
+  }
 };
 
 template <typename M>
@@ -195,6 +201,13 @@ struct LockOf final : ILock {
   bool TrySharedFor(std::int64_t d) final {
     if constexpr (requires { m.try_lock_shared_for(Ns{d}); }) {
       return m.try_lock_shared_for(Ns{d});
+    } else {
+      std::abort();
+    }
+  }
+  bool TrySharedUntil(std::int64_t t) final {
+    if constexpr (requires { m.try_lock_shared_until(Clock::time_point{Ns{t}}); }) {
+      return m.try_lock_shared_until(Clock::time_point{Ns{t}});
     } else {
       std::abort();
     }
@@ -298,8 +311,9 @@ void RunLock(LockCtx& c, int me, const std::vector<Node>& prog) {
         ok = shared ? c.lock->TryShared() : c.lock->Try();
         break;
       case 'F':
-      case 'G': {
-        const std::int64_t d = k == 'F' ? kShort : kLong;
+      case 'G':
+      case 'Z': {
+        const std::int64_t d = k == 'F' ? kShort : k == 'G' ? kLong : 0;
         name = "for" + mode;
         timed = true;
         deadline = t0 + d;
@@ -312,7 +326,7 @@ void RunLock(LockCtx& c, int me, const std::vector<Node>& prog) {
         timed = true;
         deadline = kAbs;
         Call(name + " " + std::to_string(kAbs));
-        ok = c.lock->TryUntil(kAbs);
+        ok = shared ? c.lock->TrySharedUntil(kAbs) : c.lock->TryUntil(kAbs);
         break;
       default:
         vrt::Fail(std::string("bad program token ") + n.op);
@@ -338,9 +352,11 @@ void RunLock(LockCtx& c, int me, const std::vector<Node>& prog) {
     }
     (shared ? c.s : c.x)[me]++;
     RunLock(c, me, n.body);
-    (shared ? c.s : c.x)[me]--;
     Call("unlock" + mode);
     shared ? c.lock->UnlockShared() : c.lock->Unlock();
+    // the release is complete here and nothing can run between it and this line (switches happen only in
+    // front of wrapped operations), so the client-side books change atomically with the release
+    (shared ? c.s : c.x)[me]--;
     Ret("unlock" + mode, 1);
   }
 }
@@ -393,11 +409,16 @@ struct CvCtx {
 // one primitive timed wait through the only timed overload that links (the predicate one): the predicate
 // answers false exactly once, so the library performs exactly one WaitImpl; it is consulted twice after a
 // timeout and three times after a notification.
-bool TimedWaitOnce(CvCtx& c, std::unique_lock<yaclib_std::mutex>& lk, std::int64_t d) {
+bool TimedWaitOnce(CvCtx& c, std::unique_lock<yaclib_std::mutex>& lk, std::int64_t d, bool absolute) {
   int calls = 0;
-  (void)c.cv.wait_for(lk, Ns{d}, [&] {
+  auto once = [&] {
     return ++calls > 1;
-  });
+  };
+  if (absolute) {
+    (void)c.cv.wait_until(lk, Clock::time_point{Ns{d}}, once);
+  } else {
+    (void)c.cv.wait_for(lk, Ns{d}, once);
+  }
   return calls == 3;  // true = notified, false = timeout
 }
 
@@ -440,22 +461,24 @@ void RunCv(CvCtx& c, int me, const std::vector<Node>& prog) {
         break;
       }
       case 'w':
-      case 'x': {
-        const std::int64_t d = n.op == 'w' ? kShort : kLong;
+      case 'x':
+      case 'u': {
+        const bool absolute = n.op == 'u';
+        const std::int64_t d = n.op == 'w' ? kShort : n.op == 'x' ? kLong : kAbsLong;
         std::unique_lock lk{c.m, std::defer_lock};
         lock(lk);
         if (!c.flag) {
-          const std::int64_t t0 = Now();
+          const std::int64_t deadline = absolute ? d : Now() + d;
           --c.holders;
-          Call("cvfor " + std::to_string(d));
-          const bool notified = TimedWaitOnce(c, lk, d);
-          Ret("cvfor", notified ? 1 : 0);
+          Call(std::string(absolute ? "cvuntil " : "cvfor ") + std::to_string(d));
+          const bool notified = TimedWaitOnce(c, lk, d, absolute);
+          Ret(absolute ? "cvuntil" : "cvfor", notified ? 1 : 0);
           if (++c.holders > 1) {
-            vrt::Fail("incompatible holders: cv.wait_for returned while another fiber holds the mutex");
+            vrt::Fail("incompatible holders: a timed cv wait returned while another fiber holds the mutex");
           }
-          if (!notified && Now() < t0 + d) {
-            vrt::Fail("timed wait ended early: wait_for(" + std::to_string(d) + ") called at " + std::to_string(t0) +
-                      " timed out at " + std::to_string(Now()));
+          if (!notified && Now() < deadline) {
+            vrt::Fail("timed wait ended early: deadline " + std::to_string(deadline) + " but timed out at " +
+                      std::to_string(Now()));
           }
         }
         unlock(lk);
